@@ -10,8 +10,10 @@ theorem good_edit_simple (s : St) (e : Ev) (st : Started) (T T' g : Truth) (hg :
     (hsame : ∀ n, ¬ C06.Edits e n → SameAt s T T' n)
     (hed : ∀ n, C06.Edits e n → ∀ t', sget (step s e st).1.tags n = some t' → ∀ id, id < s.next →
         id ∉ t'.unc → (id ∈ t'.mat ↔ T' n id = true))
-    (hjt : ∀ jn snap held, s.jTag = some (jn, snap, held) → C06.Edits e jn → Live (step s e st).1 jn snap →
-        Live s jn snap ∧ ∀ id, id < s.next → T' jn id = T jn id) :
+    (hself : ∀ jn snap held, s.jTag = some (jn, snap, held) → ∀ n' ot', C06.Edits e n' →
+        sget (step s e st).1.tags n' = some ot' → ot'.gen = snap.gen → ot'.defn = snap.defn →
+        ∃ n ot, sget s.tags n = some ot ∧ ot.gen = snap.gen ∧ ot.defn = snap.defn ∧ Attrs ot' = Attrs ot ∧
+          ∀ id, id < s.next → T' n' id = T n id) :
     C06.Inv (step s e st).1 T' ∧
     (∀ jn' snap held', s.jTag = some (jn', snap, held') → JobInv (step s e st).1 T' g) := by
   have hr := hg.reach
@@ -24,44 +26,52 @@ theorem good_edit_simple (s : St) (e : Ev) (st : Started) (T T' g : Truth) (hg :
     | none => rw [hk.2 hsn] at h'; cases h'
     | some t0 => exact absurd (hsame n hE t0 hsn id hid) hT
   · intro jn' snap held' hjt'
-    by_cases hE : C06.Edits e jn'
-    · exact job_edit_self s e st T T' g hg hne hnq hni herr jn' snap held' hjt' hE (hjt jn' snap held' hjt' hE)
-    · refine jobInv_mono s e st T T' g hr hg.job hne jn' snap held' hjt' ?_
-        (h1_of_not_edits s e st jn' snap hE) ?_
-      · intro id h1 h2
-        rw [hnext] at h2; omega
-      · intro ot hot _ _ _ _ id hid hT
-        exact absurd (hsame jn' hE ot hot id hid) hT
+    refine jobInv_mono s e st T T' g hr hg.job hne jn' snap held' hjt' ?_ ?_
+    · intro id h1 h2
+      rw [hnext] at h2; omega
+    · intro n' ot' hot' hg' hd'
+      by_cases hE : C06.Edits e n'
+      · obtain ⟨n, ot, hot, hg0, hd, ha, hT⟩ := hself jn' snap held' hjt' n' ot' hE hot' hg' hd'
+        exact Or.inr ⟨n, ot, hot, hg0, hd, ha, fun _ id hid hne' => absurd (hT id hid) hne'⟩
+      · obtain ⟨ot, hot, hg0, hd, ha⟩ := pre_of_not_edits s e st n' snap ot' hE hot' hg' hd'
+        exact Or.inr ⟨n', ot, hot, hg0, hd, ha, fun _ id hid hT => absurd (hsame n' hE ot hot id hid) hT⟩
 
 /-- an accepted `addTag` -/
 theorem good_addTag (s : St) (name color defn : String) (f : Facts) (st : Started) (T T' g : Truth)
     (hg : Good s T g) (hok : (step s (.addTag name color defn f) st).2 = Res.ok)
     (hsame : ∀ n, n ≠ name → SameAt s T T' n)
-    (hmark : (parseTagName name).2.2 = true → ∀ id, id < s.next → (T' name id = true ↔ id ∈ f.ids))
-    (hjt : ∀ jn snap held, s.jTag = some (jn, snap, held) → C06.Edits (.addTag name color defn f) jn →
-        Live (step s (.addTag name color defn f) st).1 jn snap →
-        Live s jn snap ∧ ∀ id, id < s.next → T' jn id = T jn id) :
+    (hmark : (parseTagName name).2.2 = true → ∀ id, id < s.next → (T' name id = true ↔ id ∈ f.ids)) :
     C06.Inv (step s (.addTag name color defn f) st).1 T' ∧
     (∀ jn' snap held', s.jTag = some (jn', snap, held') → JobInv (step s (.addTag name color defn f) st).1 T' g) := by
   refine good_edit_simple s _ st T T' g hg (fun n r h => by cases h) (fun n d f h => by cases h)
-    (fun p u c a b d h => by cases h) (by rw [hok]; intro h; cases h) ?_ ?_ hjt
+    (fun p u c a b d h => by cases h) (by rw [hok]; intro h; cases h) ?_ ?_ ?_
   · intro n hE
     exact hsame n (fun h => hE h.symm)
   · intro n hE t' h' id hid hnu
     have hn : name = n := hE
     subst hn
-    obtain ⟨_, _, t2, h2, _, _, _, _, _, hcase⟩ := addTag_ok s name color defn f st hok
+    obtain ⟨_, _, t2, h2, _, _, _, _, _, hcase, _⟩ := addTag_ok s name color defn f st hok
     rw [h'] at h2; cases h2
     rcases hcase with ⟨hm, _, hmat⟩ | ⟨_, hallp⟩
     · rw [hmat, hmark hm id hid]
     · exact absurd (hallp id (Nat.lt_of_lt_of_le hid hg.reach.nextLeAll)) hnu
+  · -- the new tag has a fresh identity: it is not the incarnation the job was started for
+    intro jn snap held hj n' ot' hE hot' hg' _
+    have hn : name = n' := hE
+    subst hn
+    obtain ⟨_, _, t2, h2, _, _, _, _, _, _, egen, _⟩ := addTag_ok s name color defn f st hok
+    rw [hot'] at h2; cases h2
+    have := hg.gens.2.1 jn snap held hj
+    rw [← hg', egen] at this
+    omega
 
 theorem updName_moved (s : St) (name new : String) (st : Started)
     (h : (step s (.updName name new) st).2 = Res.ok) (hnew : new ≠ "") :
     ∃ t, sget s.tags name = some t ∧ t.refBy = [] ∧ sget s.tags new = none ∧ name ≠ new ∧
       sget (step s (.updName name new) st).1.tags name = none ∧
-      ∃ t', sget (step s (.updName name new) st).1.tags new = some t' ∧ t'.mat = t.mat ∧ t'.unc = t.unc := by
-  rcases updName_ok s name new st h with h1 | ⟨t, h1, h2, h3, h4, h5, t', h6, h7, h8, _⟩
+      ∃ t', sget (step s (.updName name new) st).1.tags new = some t' ∧ t'.mat = t.mat ∧ t'.unc = t.unc ∧
+        t'.defn = t.defn ∧ Attrs t' = Attrs t := by
+  rcases updName_ok s name new st h with h1 | ⟨t, h1, h2, h3, h4, h5, t', h6, h7, h8, h9, a1, a2, a3, a4, a5⟩
   · exfalso
     revert h h1
     rw [step_updName_eq]
@@ -83,24 +93,21 @@ theorem updName_moved (s : St) (name new : String) (st : Started)
       obtain ⟨h2, _⟩ := unApply_get s name new t hne
       have h1' : unApply s name new t = s := h1
       rw [h1', ht] at h2; cases h2
-  · exact ⟨t, h1, h2, h3, h4, h5, t', h6, h7, h8⟩
+  · exact ⟨t, h1, h2, h3, h4, h5, t', h6, h7, h8, h9, attrs_mk a1 a2 a3 a4 a5⟩
 
 /-- an accepted rename -/
 theorem good_updName (s : St) (name new : String) (st : Started) (T T' g : Truth)
     (hg : Good s T g) (hok : (step s (.updName name new) st).2 = Res.ok) (hnew : new ≠ "")
     (hsame : ∀ n, n ≠ name → n ≠ new → SameAt s T T' n)
-    (hmove : ∀ id, id < s.next → T' new id = T name id)
-    (hjt : ∀ jn snap held, s.jTag = some (jn, snap, held) → C06.Edits (.updName name new) jn →
-        Live (step s (.updName name new) st).1 jn snap →
-        Live s jn snap ∧ ∀ id, id < s.next → T' jn id = T jn id) :
+    (hmove : ∀ id, id < s.next → T' new id = T name id) :
     C06.Inv (step s (.updName name new) st).1 T' ∧
     (∀ jn' snap held', s.jTag = some (jn', snap, held') → JobInv (step s (.updName name new) st).1 T' g) := by
   refine good_edit_simple s _ st T T' g hg (fun n r h => by cases h) (fun n d f h => by cases h)
-    (fun p u c a b d h => by cases h) (by rw [hok]; intro h; cases h) ?_ ?_ hjt
+    (fun p u c a b d h => by cases h) (by rw [hok]; intro h; cases h) ?_ ?_ ?_
   · intro n hE
     exact hsame n (fun h => hE (Or.inl h.symm)) (fun h => hE (Or.inr h.symm))
   · intro n hE t' h' id hid hnu
-    obtain ⟨t, ht, _, _, hne, hgone, t2, h2, hm, hu⟩ := updName_moved s name new st hok hnew
+    obtain ⟨t, ht, _, _, hne, hgone, t2, h2, hm, hu, _⟩ := updName_moved s name new st hok hnew
     have hn : name = n ∨ new = n := hE
     rcases hn with hn | hn
     · subst hn; rw [hgone] at h'; cases h'
@@ -108,18 +115,24 @@ theorem good_updName (s : St) (name new : String) (st : Started) (T T' g : Truth
       rw [h'] at h2; cases h2
       rw [hm, hmove id hid]
       exact hg.inv name t ht id hid (by rw [← hu]; exact hnu)
+  · -- the renamed tag keeps its identity: the incarnation is followed under its new name
+    intro jn snap held hj n' ot' hE hot' hg' hd'
+    obtain ⟨t, ht, _, _, hne, hgone, t2, h2, _, _, hdf, ha⟩ := updName_moved s name new st hok hnew
+    have hn : name = n' ∨ new = n' := hE
+    rcases hn with hn | hn
+    · subst hn; rw [hgone] at hot'; cases hot'
+    · subst hn
+      rw [hot'] at h2; cases h2
+      exact ⟨name, t, ht, by rw [← (attrs_eq ha).2.2.2.2]; exact hg', by rw [← hdf]; exact hd', ha, hmove⟩
 
 /-- an accepted `delTag` -/
 theorem good_delTag (s : St) (name : String) (st : Started) (T T' g : Truth)
     (hg : Good s T g) (hok : (step s (.delTag name) st).2 = Res.ok)
-    (hsame : ∀ n, n ≠ name → SameAt s T T' n)
-    (hjt : ∀ jn snap held, s.jTag = some (jn, snap, held) → C06.Edits (.delTag name) jn →
-        Live (step s (.delTag name) st).1 jn snap →
-        Live s jn snap ∧ ∀ id, id < s.next → T' jn id = T jn id) :
+    (hsame : ∀ n, n ≠ name → SameAt s T T' n) :
     C06.Inv (step s (.delTag name) st).1 T' ∧
     (∀ jn' snap held', s.jTag = some (jn', snap, held') → JobInv (step s (.delTag name) st).1 T' g) := by
   refine good_edit_simple s _ st T T' g hg (fun n r h => by cases h) (fun n d f h => by cases h)
-    (fun p u c a b d h => by cases h) (by rw [hok]; intro h; cases h) ?_ ?_ hjt
+    (fun p u c a b d h => by cases h) (by rw [hok]; intro h; cases h) ?_ ?_ ?_
   · intro n hE
     exact hsame n (fun h => hE h.symm)
   · intro n hE t' h' id hid hnu
@@ -127,5 +140,10 @@ theorem good_delTag (s : St) (name : String) (st : Started) (T T' g : Truth)
     subst hn
     obtain ⟨_, _, _, hgone⟩ := delTag_ok s name st hok
     rw [hgone] at h'; cases h'
+  · intro jn snap held hj n' ot' hE hot' _ _
+    have hn : name = n' := hE
+    subst hn
+    obtain ⟨_, _, _, hgone⟩ := delTag_ok s name st hok
+    rw [hgone] at hot'; cases hot'
 
 end Pk.Props.C06Reach
